@@ -10,6 +10,14 @@ period from the first split point, a single point gives one open OBJECT), every 
 non-periodic in the split direction and evaluates — p+1 points per span plus the knots from the
 inward sides — to the ORIGINAL object (exact Fraction NURBS sums of the original spec);
 split-then-append and subdivide reproduce the original map.
+Aliasing families (objects from the library's internal `raw=True` constructor path): `alias_split` — an
+object whose directions were built from ONE BSplineBasis instance (Surface(b,b,..,raw=True),
+Volume(b,b,b,..,raw=True), volume_factory.sphere(type='square')) is split in one direction; `sibling` —
+split / subdivide an object, apply one in-place operation (reverse, reparam, insert_knot, refine) to ONE
+piece in another direction, and re-check the SIBLING pieces.  Every piece, before and after the
+sibling's mutation, must be the exact restriction of the ORIGINAL map (ExactObj of the spec); any
+exception raised inside the experiment is a failure.  Correspondence: the existing `c07_split` /
+`c07_subdivide` ops on the alias-free spec (the real result, siblings after the mutation, must still be it).
 """
 from fractions import Fraction as F
 import importlib
@@ -36,7 +44,10 @@ REQUIRED_TAGS = ['split', 'split:periodic-single', 'split:periodic-multi', 'spli
                  'split:mult>=2', 'split:unordered', 'split:duplicate', 'split:endpoint', 'split:outside', 'split:scalar', 'split:empty',
                  'split:dir>0', 'split:bad-direction', 'rational', 'pardim=1', 'pardim=2', 'pardim=3', 'periodic-small',
                  'append', 'append:periodic-error', 'append:orders-differ', 'split_append', 'split_append:periodic', 'subdivide',
-                 'subdivide:periodic', 'splitvector']
+                 'subdivide:periodic', 'splitvector',
+                 'alias_split', 'alias_split:shared', 'alias_split:sphere', 'alias_split:pardim=2', 'alias_split:pardim=3',
+                 'sibling', 'sibling:split', 'sibling:subdivide', 'sibling:reverse', 'sibling:reparam', 'sibling:insert',
+                 'sibling:refine', 'sibling:pardim=2', 'sibling:pardim=3']
 
 TOLF = F(1, 10 ** 10)
 SPELL = {0: [0, 'u', 'U'], 1: [1, 'v', 'V'], 2: [2, 'w', 'W']}
@@ -346,6 +357,7 @@ def generate(rng, tier):
                             max_interior=4 if pardim < 3 else 2, max_mult=2)
         n = rng.choice([0, 1, 1, 2, 3]) if rng.random() < 0.5 else [rng.choice([0, 1, 2, 3]) for _ in range(pardim)]
         specs.append({'kind': 'subdivide', 'objs': [o], 'n': n})
+    specs += _aliasing_specs(rng, quick)
     # --- _splitvector
     for ln in range(0, 13 if quick else 40):
         for parts in range(1, 9 if quick else 20):
@@ -353,6 +365,83 @@ def generate(rng, tier):
                 continue
             specs.append({'kind': 'splitvector', 'len': ln, 'parts': parts})
     return specs
+
+
+
+BEZ5 = {'order': 5, 'knots': [0.0] * 5 + [1.0] * 5, 'periodic': -1}     # the basis of volume_factory.sphere(type='square')
+
+
+def _between(rng, b):
+    """A value strictly inside the domain of basis spec `b`, between two knots."""
+    info = gen.basis_info(b)
+    ks = sorted(set(x for x in b['knots'] if info['start'] <= x <= info['end']))
+    i = rng.randrange(len(ks) - 1)
+    return ks[i] + (ks[i + 1] - ks[i]) * rng.choice([0.25, 0.5, 0.625])
+
+
+def _aliasing_specs(rng, quick):
+    """Objects from the `raw=True` constructor path (several directions / several pieces may hold the same
+    BSplineBasis instance): the property must hold for them as for any object."""
+    out = []
+    # (1) one basis instance used for all directions, split in one of them
+    for i in range(14 if quick else 150):
+        pd = 2 if i % 3 else 3
+        p = rng.randint(2, 4 if pd == 2 else 3)
+        b = gen.open_basis(rng, p, n_interior=rng.randint(0, 2))
+        n = gen.basis_info(b)['n']
+        rational = bool(i % 4 == 1)
+        cps = gen.rand_cps(rng, [n] * pd, 3 + (1 if rational else 0), rational)
+        d = rng.randrange(pd)
+        plain = {'bases': [b] * pd, 'cps': cps, 'rational': rational}
+        out.append({'kind': 'alias_split', 'how': 'shared', 'obj': plain, 'dir': d, 'knots': _valid_split_set(rng, plain, d, maxm=2)})
+    for i in range(3 if quick else 9):
+        out.append({'kind': 'alias_split', 'how': 'sphere', 'r': rng.choice([1.0, 2.0, 0.5]),
+                    'center': [rng.choice([0.0, 1.0, -2.0]) for _ in range(3)], 'dir': i % 3,
+                    'knots': [rng.choice([0.37, 0.5, 0.25, 0.625])]})
+    # (2) split / subdivide, mutate ONE piece in another direction, re-check the siblings
+    for i in range(24 if quick else 260):
+        pd = 2 if i % 4 else 3
+        o = gen.rand_object(rng, pardim=pd, pmax=4 if pd == 2 else 3, periodic_prob=0.0, max_interior=2, max_mult=2,
+                            rational=bool(i % 3 == 1), pmin=2)
+        via = 'subdivide' if i % 6 == 5 else 'split'
+        sd = rng.randrange(pd)
+        d2 = rng.choice([q for q in range(pd) if q != sd])
+        name = ['reverse', 'reparam', 'insert', 'refine'][i % 4]
+        op = {'name': name, 'dir': d2}
+        if name == 'reparam':
+            a = rng.choice([0.0, -1.0, 0.5])
+            op['to'] = [a, a + rng.choice([2.0, 0.5, 3.0])]
+        elif name == 'insert':
+            op['x'] = _between(rng, o['bases'][d2])
+        elif name == 'refine':
+            op['n'] = rng.randint(1, 2)
+        sp_ = {'kind': 'sibling', 'via': via, 'obj': o, 'op': op, 'which': 0 if i % 2 else -1}
+        if via == 'split':
+            sp_['dir'] = sd
+            sp_['knots'] = _valid_split_set(rng, o, sd, maxm=3)
+        else:
+            n = [0] * pd
+            n[sd] = rng.randint(1, 2)
+            if pd == 3 and i % 12 == 11:
+                n[[q for q in range(pd) if q not in (sd, d2)][0]] = 1
+            sp_['n'] = n
+        out.append(sp_)
+    return out
+
+
+def _as_plain(s):
+    """The ordinary (alias-free) spec whose correspondence the aliasing kinds reuse."""
+    k = s['kind']
+    if k == 'alias_split':
+        if s['how'] == 'sphere':   # the control net of the ball is the library's; correspondence on its basis only
+            return {'kind': 'split', 'obj': {'bases': [BEZ5], 'cps': [[float(i), float(i * i)] for i in range(5)], 'rational': False},
+                    'dir': 0, 'knots': list(s['knots'])}
+        return {'kind': 'split', 'obj': s['obj'], 'dir': s['dir'], 'knots': list(s['knots'])}
+    if k == 'sibling':
+        if s['via'] == 'split':
+            return {'kind': 'split', 'obj': s['obj'], 'dir': s['dir'], 'knots': list(s['knots'])}
+        return {'kind': 'subdivide', 'objs': [s['obj']], 'n': list(s['n'])}
+    return s
 
 
 # ---------------------------------------------------------------------------------------------
@@ -370,6 +459,7 @@ def _nlist(s):
 
 
 def model_line(s):
+    s = _as_plain(s)
     k = s['kind']
     if k == 'split':
         return line('c07_split', gen.enc_object(s['obj']), gen.TOL, s['knots'], s['dir'])
@@ -439,8 +529,55 @@ def _obs(sp, x):
     return 'not-a-spline-object:%s' % type(x).__name__
 
 
+def _mk_aliased(sp, s):
+    """The object of an `alias_split` spec, built the way the library builds it internally."""
+    if s['how'] == 'sphere':
+        vf = importlib.import_module(sp.__name__ + '.volume_factory')
+        return vf.sphere(r=s['r'], center=tuple(s['center']), type='square')
+    o = s['obj']
+    b = gen.mk_basis(sp, o['bases'][0])                       # ONE instance for every direction
+    cls = {2: sp.Surface, 3: sp.Volume}[len(o['bases'])]
+    return cls(*([b] * len(o['bases'])), np.array(o['cps'], dtype=float), o['rational'], raw=True)
+
+
+def _apply_op(piece, op):
+    n, d = op['name'], op['dir']
+    if n == 'reverse':
+        piece.reverse(d)
+    elif n == 'reparam':
+        piece.reparam(tuple(op['to']), direction=d)
+    elif n == 'insert':
+        piece.insert_knot(op['x'], d)
+    elif n == 'refine':
+        piece.refine(op['n'], direction=d)
+    else:
+        raise AssertionError(n)
+
+
+def _sibling_pieces(sp, s):
+    """(pieces, index of the piece that will be mutated)."""
+    if s['via'] == 'split':
+        pieces = gen.mk_object(sp, s['obj']).split(list(s['knots']), s['dir'])
+    else:
+        pieces = _subdivide(sp, {'objs': [s['obj']], 'n': list(s['n'])})
+    if not isinstance(pieces, list):
+        raise AssertionError('split did not return a list')
+    return pieces, s['which'] % len(pieces)
+
+
 def run_impl(sp, s):
     k = s['kind']
+    if k == 'alias_split':
+        if s['how'] == 'sphere':
+            return run_impl(sp, _as_plain(s))
+        r = _mk_aliased(sp, s).split(list(s['knots']), s['dir'])
+        return ['many', [_obs(sp, x) for x in r]] if isinstance(r, list) else ['single', [_obs(sp, r)]]
+    if k == 'sibling':
+        pieces, w = _sibling_pieces(sp, s)
+        before = _obs(sp, pieces[w])
+        _apply_op(pieces[w], s['op'])
+        obs = [before if i == w else _obs(sp, x) for i, x in enumerate(pieces)]     # the siblings AFTER the mutation
+        return ['many', obs] if s['via'] == 'split' else obs
     if k == 'split':
         r = _split(sp, s)
         if isinstance(r, list):
@@ -494,8 +631,79 @@ def split_claim(s):
     return (False, list(zip(bounds[:-1], bounds[1:])))
 
 
+def _alias_oracle(sp, s):
+    try:
+        if s['how'] == 'sphere':
+            ref = gen.spec_of_object(_mk_aliased(sp, s))       # snapshot of a fresh, untouched ball
+        else:
+            ref = s['obj']
+        obj = _mk_aliased(sp, s)
+        info = gen.basis_info(ref['bases'][s['dir']])
+        r = obj.split(list(s['knots']), s['dir'])
+    except Exception as e:  # noqa: BLE001
+        return ['split of an object built from one basis instance raised %s: %s' % (type(e).__name__, e)]
+    if not isinstance(r, list):
+        return ['split did not return a list']
+    bounds = [info['start']] + list(s['knots']) + [info['end']]
+    if len(r) != len(bounds) - 1:
+        return ['split returned %d pieces, expected %d' % (len(r), len(bounds) - 1)]
+    ex = ExactObj(ref)
+    for i, pc in enumerate(r):
+        f = check_piece(ex, pc, s['dir'], bounds[i], bounds[i + 1], 'piece %d (bases from one instance)' % i, thin=True)
+        if f:
+            return f
+        for q in range(len(ref['bases'])):
+            if q != s['dir'] and len(pc.bases[q].knots) != len(ref['bases'][q]['knots']):
+                return ['piece %d: splitting direction %d changed the knot vector of direction %d' % (i, s['dir'], q)]
+    return []
+
+
+def _sibling_oracle(sp, s):
+    o = s['obj']
+    ex = ExactObj(o)
+    try:
+        pieces, w = _sibling_pieces(sp, s)
+    except Exception as e:  # noqa: BLE001
+        return ['%s raised %s: %s' % (s['via'], type(e).__name__, e)]
+    if s['via'] == 'split':
+        info = gen.basis_info(o['bases'][s['dir']])
+        bounds = [info['start']] + list(s['knots']) + [info['end']]
+        if len(pieces) != len(bounds) - 1:
+            return ['split returned %d pieces, expected %d' % (len(pieces), len(bounds) - 1)]
+
+    def chk(i, pc, when):
+        if s['via'] == 'split':
+            return check_piece(ex, pc, s['dir'], bounds[i], bounds[i + 1], 'piece %d %s' % (i, when), thin=True)
+        return _check_block(ex, pc, 'block %d %s' % (i, when))
+
+    for i, pc in enumerate(pieces):
+        f = chk(i, pc, 'right after %s' % s['via'])
+        if f:
+            return f
+    doms = [[(pc.start(q), pc.end(q)) for q in range(pc.pardim)] for pc in pieces]
+    try:
+        _apply_op(pieces[w], s['op'])
+    except Exception as e:  # noqa: BLE001
+        return ['%s of piece %d raised %s: %s' % (s['op']['name'], w, type(e).__name__, e)]
+    what = 'after %s of its sibling %d in direction %d' % (s['op']['name'], w, s['op']['dir'])
+    for i, pc in enumerate(pieces):
+        if i == w:
+            continue
+        now = [(pc.start(q), pc.end(q)) for q in range(pc.pardim)]
+        if now != doms[i]:
+            return ['piece %d %s has domain %r, it had %r' % (i, what, now, doms[i])]
+        f = chk(i, pc, what)
+        if f:
+            return f
+    return []
+
+
 def oracle(sp, s):
     k = s['kind']
+    if k == 'alias_split':
+        return _alias_oracle(sp, s)
+    if k == 'sibling':
+        return _sibling_oracle(sp, s)
     if k == 'split':
         claim = split_claim(s)
         if claim is None:
@@ -733,6 +941,17 @@ def tags(s, res):
         if any(b['periodic'] >= 0 for b in s['objs'][0]['bases']):
             out.append('subdivide:periodic')
         out.append('pardim=%d' % len(s['objs'][0]['bases']))
+    elif k == 'alias_split':
+        out.append('alias_split:' + s['how'])
+        out.append('alias_split:pardim=%d' % (3 if s['how'] == 'sphere' else len(s['obj']['bases'])))
+        if s['how'] == 'shared' and s['obj']['rational']:
+            out.append('alias_split:rational')
+    elif k == 'sibling':
+        out.append('sibling:' + s['via'])
+        out.append('sibling:' + s['op']['name'])
+        out.append('sibling:pardim=%d' % len(s['obj']['bases']))
+        if s['obj']['rational']:
+            out.append('sibling:rational')
     return out
 
 
@@ -740,4 +959,4 @@ def nontrivial(s, res):
     k = s['kind']
     if k == 'split':
         return split_claim(s) is not None
-    return k in ('split_append', 'subdivide', 'append')
+    return k in ('split_append', 'subdivide', 'append', 'alias_split', 'sibling')
